@@ -4,7 +4,7 @@ import json, os, shutil, sys
 key, need = sys.argv[1], sys.argv[2]
 expect = sys.argv[3] if len(sys.argv) > 3 else "caught"
 pid, x = key.split("/")
-src = os.path.join("/tmp/seed_out", pid, x)
+src = os.path.join(os.environ.get("SEED_SRC", "/tmp/seed_out"), pid, x)
 ev = json.load(open(os.path.join(src, "eval.json")))
 assert ev["applies"] and ev["demo_clean"] == 0 and ev.get("demo_changed") not in (0, None) and ev.get("tests_passed") == 245, ev
 dst = os.path.join("/verif/seeded", "%s_%s" % (pid, x))
